@@ -150,7 +150,9 @@ impl super::EncodeSize for ConnectionCloseFrame {
                     + frame.reason.len()
             }
             ConnectionCloseFrame::Quic(frame) => {
-                1 + VarInt::from(frame.error_kind).encoding_size() + 1
+                // the Frame Type field is a variable-length integer: extension frame types take 4 bytes
+                1 + VarInt::from(frame.error_kind).encoding_size()
+                    + VarInt::from(frame.frame_type).encoding_size()
                     // reason's length could not exceed 16KB.
                     + VarInt::try_from(frame.reason.len()).unwrap().encoding_size()
                     + frame.reason.len()
